@@ -229,9 +229,13 @@ class PythonPrinter:
         current_state = self.backslashed or self.triplequoted
 
         self.backslashed = bool(re.search(r"\\$", line))
-        triples = len(re.findall(r"\"\"\"|\'\'\'", line))
-        if triples == 1 or triples % 2 != 0:
-            self.triplequoted = not self.triplequoted
+        # a triple-quoted string ends at the next occurrence of the quote
+        # that opened it; the other kind of triple quote is part of its text
+        for quote in re.findall(r"\"\"\"|\'\'\'", line):
+            if not self.triplequoted:
+                self.triplequoted = quote
+            elif self.triplequoted == quote:
+                self.triplequoted = False
 
         return current_state
 
